@@ -1,4 +1,5 @@
 import QuaiVerif.Model.Etx
+import QuaiVerif.Model.Gas
 import QuaiVerif.Model.Value
 import QuaiVerif.Model.Create
 /- Line-protocol front end of the ETX origin model (area `evm`). -/
@@ -59,6 +60,13 @@ def step (u : Unit) (ws : List String) : Unit × String :=
   match ws with
   | ["newcase"] => (u, "ok")
   | ["note"] => (u, "ok")
+  -- gasbuy <gasLimit> <gasPrice> <value> <balance> <used> <moved 0|1>: verdict and the payer's final balance
+  | ["gasbuy", g, p, v, b, used, mv] => match g.toNat?, p.toNat?, v.toNat?, b.toNat?, used.toNat? with
+    | some g, some p, some v, some b, some used =>
+      let t : Gas.Tx := { gasLimit := g, gasPrice := p, value := v, balance := b }
+      if Gas.accepted t then (u, s!"ok payer={Gas.payerAfter t used (mv == "1")} gain={Gas.recipientGain t (mv == "1")}")
+      else (u, s!"refused payer={b} gain=0")
+    | _, _, _, _, _ => (u, "bad-op")
   | "etx" :: rest => (u, match parseCfg rest, kvBool rest "inscope", kvNat rest "value", kvNat rest "gaslimit", kvNat rest "tip",
         kvNat rest "feecap", kvNat rest "balance", kvNat rest "cachelen", kvBool rest "alok", kvNat rest "alsize", kvBool rest "eligible" with
       | some c, some sc, some v, some g, some t, some f, some b, some cl, some ao, some as, some el =>
